@@ -64,7 +64,8 @@ def run(ctx: Ctx) -> None:
         kwo = base and {a["kw"], b["kw"]} <= {"ab", "ba"} and a["scope"] == b["scope"] == "top"
         sib = base and a["scope"] == b["scope"] == "body" and a["kw"] in ("none", "s1") and b["kw"] in ("none", "s1")
         mixed = base and {a["scope"], b["scope"]} == {"top", "body"} and a["kw"] == b["kw"] == "none"
-        return kwo or sib or mixed
+        sig = a["inst"] == b["inst"] and a["kw"] == b["kw"] == "none" and a["scope"] == b["scope"] == "top" and (a["shp"], a["dt"]) != (b["shp"], b["dt"])
+        return kwo or sib or mixed or sig
     musts = [c for c in two if must(c)]
     rest = [c for c in two if not must(c)]
     pick = musts[: (60 if ctx.quick else 10**6)] + [c for c in rest if interesting(c)][: (50 if ctx.quick else 1500)] + [c for c in rest if not interesting(c)][: (8 if ctx.quick else 100)]
